@@ -4,6 +4,7 @@ import (
 	"fmt"
 	"go/constant"
 	"go/token"
+	"go/types"
 	"strings"
 
 	"golang.org/x/tools/go/ssa"
@@ -250,4 +251,141 @@ func loadsGlobal(v ssa.Value, name string) bool {
 		}
 	}
 	return false
+}
+
+// cacheIndexAgreesRule (C05.i CACHE-INDEX-AGREES): the resolver-lifetime LRU
+// cache indexes its list nodes by key, and a node remembers its key so that
+// eviction can delete the index entry of the node it recycles. The two must
+// agree: wherever Add stores a node under a key in the index, the node is a
+// fresh one pushed with that key, or the same block has stored that very key
+// into the node before. If a recycled node keeps the key of the entry it held
+// before, the next eviction deletes the wrong index entry and a live key then
+// answers with another entry's value: a resolution depends on what the
+// resolver was asked earlier.
+func cacheIndexAgreesRule(r *Report, p *Prog, rule string) int {
+	n := 0
+	for _, f := range p.Funcs {
+		if f.Pkg == nil && f.Origin() == nil {
+			continue
+		}
+		pkgPath := ""
+		if f.Pkg != nil {
+			pkgPath = f.Pkg.Pkg.Path()
+		} else if o := f.Origin(); o != nil && o.Pkg != nil {
+			pkgPath = o.Pkg.Pkg.Path()
+		}
+		if pkgPath != modPrefix+"resolve/pypi/internal/lru" || f.Blocks == nil || !(f.Name() == "Add" || strings.HasPrefix(f.Name(), "Add[")) {
+			continue
+		}
+		per := 0
+		for _, b := range f.Blocks {
+			for i, in := range b.Instrs {
+				mu, ok := in.(*ssa.MapUpdate)
+				if !ok {
+					continue
+				}
+				if _, isPtr := mu.Value.Type().Underlying().(*types.Pointer); !isPtr {
+					continue
+				}
+				n++
+				per++
+				key := fmt.Sprintf("%s: index update #%d stores a node that carries the same key", fnKey(f), per)
+				okNode := false
+				how := ""
+				if c, isCall := mu.Value.(*ssa.Call); isCall {
+					if sc := c.Common().StaticCallee(); sc != nil && (sc.Name() == "Push" || strings.HasPrefix(sc.Name(), "Push[")) {
+						okNode, how = true, "a fresh node pushed for this key"
+					}
+				}
+				if !okNode {
+					for _, prev := range b.Instrs[:i] {
+						st, isStore := prev.(*ssa.Store)
+						if !isStore || st.Val != mu.Key {
+							continue
+						}
+						fa, isFA := st.Addr.(*ssa.FieldAddr)
+						if !isFA {
+							continue
+						}
+						if inner, isFA2 := fa.X.(*ssa.FieldAddr); isFA2 && inner.X == mu.Value {
+							okNode, how = true, "the node's own key was set to this key just before"
+						}
+					}
+				}
+				if okNode {
+					r.ok(rule, key, p.pos(mu.Pos()), how)
+				} else {
+					r.bad(rule, key, p.pos(mu.Pos()), "a recycled list node is stored in the index under a key that was not stored into the node: the node still names the entry it held before, the next eviction of this node deletes that stale index entry instead of the live one, and the live key then answers with another entry's value")
+				}
+			}
+		}
+	}
+	return n
+}
+
+// markerEvaluatedRule (C16/MARKER-EVALUATED): whether a guarded dependency is
+// followed is decided by evaluating its marker, and by nothing else. In the
+// filter of provider.getDependencies a requirement that carries a marker is
+// dropped or kept only with the value Eval returned (or the parse error): no
+// return of a constant verdict with a nil error other than the "no marker:
+// keep" exit. A textual shortcut ("the marker mentions extra and no extra is
+// requested: drop") is wrong for every marker in which that sub-expression is
+// one arm of an `or`, or sits inside a string literal.
+func markerEvaluatedRule(r *Report, p *Prog, rule string) {
+	f := p.lookupFn("(*resolve/pypi.provider).getDependencies")
+	key := "(*resolve/pypi.provider).getDependencies: the verdict on a guarded dependency is the marker's value"
+	if f == nil || len(f.AnonFuncs) == 0 {
+		r.bad(rule, key, "", "getDependencies or its filter callback not found: anchor lost")
+		return
+	}
+	cb := f.AnonFuncs[0]
+	evalSeen := false
+	var bad []string
+	nRet := 0
+	for _, b := range cb.Blocks {
+		for _, in := range b.Instrs {
+			if c, ok := in.(*ssa.Call); ok && c.Common().IsInvoke() && c.Common().Method.Name() == "Eval" {
+				evalSeen = true
+			}
+		}
+		ret, ok := b.Instrs[len(b.Instrs)-1].(*ssa.Return)
+		if !ok || len(ret.Results) != 2 {
+			continue
+		}
+		nRet++
+		verdict, isConst := ret.Results[0].(*ssa.Const)
+		errc, errConst := ret.Results[1].(*ssa.Const)
+		if !isConst || !errConst || !errc.IsNil() || verdict.Value == nil {
+			continue // the marker's value, or an error
+		}
+		if constant.BoolVal(verdict.Value) {
+			// keep without evaluating: only where the requirement has no marker,
+			// i.e. on the false edge of the presence result of GetAttr
+			okExit := false
+			for _, pr := range b.Preds {
+				ifi, isIf := pr.Instrs[len(pr.Instrs)-1].(*ssa.If)
+				if !isIf || pr.Succs[1] != b {
+					continue
+				}
+				if ex, isEx := ifi.Cond.(*ssa.Extract); isEx && ex.Index == 1 {
+					if c, isCall := ex.Tuple.(*ssa.Call); isCall && strings.HasSuffix(staticCalleeName(c), ".GetAttr") {
+						okExit = true
+					}
+				}
+			}
+			if !okExit {
+				bad = append(bad, "a constant `true, nil` that is not the no-marker exit at "+p.pos(ret.Pos()))
+			}
+		} else {
+			bad = append(bad, "a constant `false, nil` at "+p.pos(ret.Pos()))
+		}
+	}
+	switch {
+	case !evalSeen || nRet < 2:
+		r.bad(rule, key, p.pos(cb.Pos()), "the filter callback no longer evaluates a marker (no Eval call) or has fewer than two exits: anchor lost")
+	case len(bad) > 0:
+		r.bad(rule, key, p.pos(cb.Pos()), "the filter decides about a requirement that carries a marker without the marker's value ("+strings.Join(bad, "; ")+"): the dependency is dropped or kept whatever the marker evaluates to")
+	default:
+		r.ok(rule, key, p.pos(cb.Pos()), fmt.Sprintf("%d exits: the no-marker keep, errors, and the value of Eval", nRet))
+	}
 }
